@@ -124,6 +124,17 @@ def check_case(ctx, case):
     ctx.sample({**case, "cuts": case["cuts"][:3]})
 
 
+# no result depends on the log level: a tenth of the cases runs with the package logger at DEBUG (replayable: the flag is
+# part of the case / of the recorded witness)
+_dbg_gen, _dbg_chk = env.debug_dimension(0.1)
+gen_case = _dbg_gen(gen_case)
+check_case = _dbg_chk(check_case)
+
+# no clause depends on the map backend: a tenth of the eligible cases (integer labels, no linked edges) runs on SqliteMap
+_bk_gen, _bk_chk = build.backend_dimension(0.12)
+gen_case = _bk_gen(gen_case)
+check_case = _bk_chk(check_case)
+
 TECHNIQUE = "runtime monitoring: differential monitor, one-shot run vs incremental extension histories at every cut of the trace"
 LEVEL_TEXT = ("{Q} (quick) / {T} (thorough) traces x ~10 cut sets each (all single splits, all cut sets for n<=5): index, best probability and best "
               "path of the incremental history must equal the one-shot result (paths up to exact ties); extension-only runs without width are also held to the non-emitting filter invariant of C07 "
